@@ -205,7 +205,7 @@ func entryMsg(k int) []byte {
 	t := entryTarget[k]
 	rows, err := vbox.Block([]vbox.Point{{Metric: t[0], Tags: map[string]string{"host": t[1]}, Field: "f", Type: "sum", Value: math.Pow(3, float64(k)), Timestamp: baseTime + 5000}})
 	if err != nil {
-		vevid.Fatal("block: %v", err)
+		vevid.OpFailed("block: %v", err)
 	}
 	return compressBlock(rows)
 }
@@ -480,7 +480,7 @@ func runHistory(rep *vevid.Report, h history) {
 	rec.Pause()
 	n, err := openNode(root)
 	if err != nil {
-		vevid.Fatal("open node: %v", err)
+		vevid.OpFailed("open node: %v", err)
 	}
 	defer func() {
 		if r := recover(); r != nil {
